@@ -82,7 +82,10 @@ def _run_case(ctx, case) -> F.Outcome:
     if case[0] == "pipe":
         from mc.checks import c12_pipeline
 
-        return c12_pipeline.run_case(ctx, case)
+        try:
+            return c12_pipeline.run_case(ctx, case)
+        finally:
+            H.freeze(H.rotate(_DAYS, ctx.seed)[0])
     if case[0] == "single":
         _, k, p, ident, widx, tail = case
         page = M.APage(title=[M.W("t")], top_blocks=[[_mk_item(ctx.seed, k, p, ident, widx, tail)]])
@@ -150,10 +153,18 @@ def _sample(ctx, case):
 
 
 def run(ctx: F.Ctx):
+    from mc.checks import c12_pipeline
+
     cases = _cases(ctx)
     day = H.rotate(_DAYS, ctx.seed)[0]
-    rep = F.explore(ctx, cases, lambda c: _run_case(ctx, c), sample=lambda c: _sample(ctx, c),
-                    day=day, twice_every=401)
+    H.freeze(c12_pipeline.DAY)
+    c12_pipeline._index("K1")
+    c12_pipeline._index("K4")
+    try:
+        rep = F.explore(ctx, cases, lambda c: _run_case(ctx, c), sample=lambda c: _sample(ctx, c),
+                        day=day, twice_every=401)
+    finally:
+        c12_pipeline.drop_all()
     n_pipe = sum(1 for c in cases if c[0] == "pipe")
     meta = {
         "rule": (
@@ -174,5 +185,10 @@ def run(ctx: F.Ctx):
 
 
 def replay(case, ctx: F.Ctx) -> F.Outcome:
+    from mc.checks import c12_pipeline
+
     H.freeze(H.rotate(_DAYS, ctx.seed)[0])
-    return _run_case(ctx, list(case))
+    try:
+        return _run_case(ctx, list(case))
+    finally:
+        c12_pipeline.drop_all()
